@@ -1538,6 +1538,7 @@ func (v *VMValue) ComputedExecute(ctx *Context, detail *BufferSpan) *VMValue {
 	}
 
 	if vm.Error != nil {
+		ctx.NumOpCount = vm.NumOpCount // 出错时已做的运算同样要记到调用者头上
 		ctx.Error = vm.Error
 		return nil
 	}
@@ -1627,6 +1628,7 @@ func (v *VMValue) FuncInvokeRaw(ctx *Context, params []*VMValue, useUpCtxLocal b
 	}
 
 	if vm.Error != nil {
+		ctx.NumOpCount = vm.NumOpCount // 出错时已做的运算同样要记到调用者头上
 		ctx.Error = vm.Error
 		return nil
 	}
